@@ -92,6 +92,21 @@ def handle (op : String) (a : Json) : Except String Json := do
     return ok (Json.mkObj [("events", toJson n), ("records", recs), ("flush", arr ((flush s).map eventJson)), ("rstore", natArr s.rstore), ("accepted", natArr s.accepted), ("dropped", natArr s.dropped),
       ("downsampled", natArr s.downsampled), ("fed", natArr s.fed),
       ("in_flight", toJson (s.samplers.length + (s.w2d.flatMap (·.2)).length + s.raw.length + s.dstore.length + s.d2r.flatten.length))]) tags.eraseDups
+  | "ticks" =>
+    -- the firing pattern of n wake-ups from timer t: list of booleans (post-processing called at that wake-up) and the final timer
+    let w ← getNat a "w"
+    let p ← getNat a "p"
+    let n ← getNat a "n"
+    let t0 ← getNat a "t"
+    let mut t := t0
+    let mut fired : List Bool := []
+    for _ in [0:n] do
+      let r := wake w p t
+      t := r.1
+      fired := r.2 :: fired
+    let total := (wakes w p n t0).2
+    return ok (Json.mkObj [("fired", arr (fired.reverse.map fun b => toJson b)), ("timer", toJson t), ("count", toJson total)])
+      [if total == 0 then "never-fired" else if total == 1 then "fired-once" else "fired-repeatedly"]
   | _ => throw s!"unknown op {op}"
 
 end Drivers.Samples
